@@ -17,7 +17,7 @@ func init() {
 			"the index held `a` and `a/x` together and the committed tree had a blob and a tree under one name (fixed bd49cc3); " +
 			"(missing-covers-not-a-directory) the test that lets Worktree.Remove pass over a file that is not there accepts ENOTDIR beside not-exist (fixed 4d18a92); " +
 			"(remove-cleans-empty-parents) after Worktree.Remove has removed a single file, the success return is reached only through a call that removes emptied leading directories, as for RemoveGlob and directories (fixed 4e1855c); (move-carries-entry) Worktree.Move makes the destination entry of the source's entry and its static closure does not reach the stat refresh doUpdateFileToIndex — " +
-			"refreshing paired the old blob with stat data matching the new content, so a file modified before the move showed as unmodified (fixed e6be7cb). " +
+			"refreshing paired the old blob with stat data matching the new content, so a file modified before the move showed as unmodified (fixed e6be7cb); (tree-builder-component-boundaries) the commit's tree builder splits entry names at \"/\" and tests no variable string prefix that does not end in \"/\". " +
 			"Not decided: the entries and trees produced (values), glob semantics, Move with a modified source, Clean's treatment of files below a tracked file turned directory (git keeps them as 'killed' files), modes and stat data.",
 		Assumptions: []string{},
 		Run:         runC28,
@@ -149,6 +149,7 @@ func runC28(c *Ctx) {
 	}
 
 	checkMoveCarriesEntry(c, "move-carries-entry")
+	checkTreeBuilderPrefixes(c, "tree-builder-component-boundaries")
 
 	// ---- remove-cleans-empty-parents
 	const r4 = "remove-cleans-empty-parents"
@@ -277,6 +278,59 @@ func checkMoveCarriesEntry(c *Ctx, rule string) {
 		}
 	}
 	c.Check(used, rule, fi.Name()+":entry-carried-over", fi.Decl.Pos(), orStr(ifStr(!used, "after the rename the source's entry is not read as a whole: the destination entry is not made of it"), "the destination entry is made of the source's entry"))
+}
+
+// checkTreeBuilderPrefixes (C28): the tree of a commit is built by walking each index entry's name component by
+// component. A shortcut that recognises "this entry lies in the directory of the previous one" by a raw string prefix
+// takes `pkg/apis/v1.go` for a file below `pkg/api`, files the blob under a bogus subtree and loses the real one. Decided:
+// in the methods of buildTreeHelper every strings.HasPrefix / strings.TrimPrefix / strings.CutPrefix with a non-constant
+// prefix takes a prefix that ends at a component boundary (an expression `x + "/"`), and the builder splits names at "/".
+func checkTreeBuilderPrefixes(c *Ctx, rule string) {
+	p := c.P
+	tn := p.lookupType("git", "buildTreeHelper")
+	if tn == nil {
+		c.Unresolved(rule, "git.buildTreeHelper", 0, "type not found")
+		return
+	}
+	n, splits := 0, 0
+	for _, fi := range p.FuncsIn("git") {
+		if fi.Decl.Body == nil || recvTypeName(fi.Obj) != tn || p.isTestFile(fi.Decl.Pos()) {
+			continue
+		}
+		c.Analysed(fi)
+		info := fi.Pkg.TypesInfo
+		k := 0
+		walkCalls(fi.Decl.Body, true, func(call *ast.CallExpr) {
+			fn := Callee(info, call)
+			if fn == nil || fn.Pkg() == nil || fn.Pkg().Path() != "strings" || len(call.Args) != 2 {
+				return
+			}
+			switch fn.Name() {
+			case "Split", "SplitN":
+				if tv := info.Types[call.Args[1]]; tv.Value != nil && tv.Value.Kind() == constant.String && constant.StringVal(tv.Value) == "/" {
+					splits++
+				}
+			case "HasPrefix", "TrimPrefix", "CutPrefix":
+				if tv := info.Types[call.Args[1]]; tv.Value != nil {
+					return // a constant prefix
+				}
+				n++
+				k++
+				okForm := false
+				if be, ok := unparen(call.Args[1]).(*ast.BinaryExpr); ok && be.Op == token.ADD {
+					if tv := info.Types[be.Y]; tv.Value != nil && tv.Value.Kind() == constant.String && constant.StringVal(tv.Value) == "/" {
+						okForm = true
+					}
+				}
+				c.Check(okForm, rule, fi.Name()+"->strings."+fn.Name()+ifStr(k > 1, "#"+itoa(k)), call.Pos(), orStr(ifStr(!okForm, "a directory is recognised by a raw string prefix ("+exprString(call.Args[1])+"): `pkg/apis/v1.go` passes for a file below `pkg/api`, its blob is filed under a bogus subtree and the committed tree is not the index's"),
+					"the prefix ends at a component boundary"))
+			}
+		})
+	}
+	c.Check(splits >= 1, rule, "git.buildTreeHelper:splits-at-separator", tn.Pos(), orStr(ifStr(splits == 0, "the tree builder no longer splits entry names at \"/\""), "entry names are split at \"/\""))
+	if n == 0 {
+		c.Hold(rule, "git.buildTreeHelper:no-raw-prefix", tn.Pos(), "no variable string prefix is tested in the tree builder")
+	}
 }
 
 func hitPos(h *Hit) token.Pos {
